@@ -46,10 +46,10 @@ def mutators(ctx):
         if (root, kind) in seen:
             continue
         seen.add((root, kind))
-        ctx.check(root in MUTATORS, root, 'mutates MasterSecretKey.secrets (%s)' % kind.split(':')[0],
+        ctx.check(lib.role_owner(F, root, MUTATORS) is not None, root, 'mutates MasterSecretKey.secrets (%s)' % kind.split(':')[0],
                   '%s mutates the master secrets (%s, line %d) but is not one of the mutators whose flag discipline '
                   'is discharged (%s)' % (body.key, kind, ln, ', '.join(k.split('::')[-1] for k in MUTATORS)),
-                  MUTATORS.get(root, ''), body.where(ln))
+                  MUTATORS.get(lib.role_owner(F, root, MUTATORS), ''), body.where(ln))
     # the inner map is pub(crate): direct users of RevisionMap.map on a master key
     for body in F.fns():
         if body.key.startswith('data_struct::revision_map::'):
@@ -61,7 +61,7 @@ def mutators(ctx):
                     names = proj_names(rv['pl'])
                     if 'map' in names and 'secrets' in names:
                         root = body.root or body.key
-                        ctx.check(root in MUTATORS, root, 'mutates MasterSecretKey.secrets.map',
+                        ctx.check(lib.role_owner(F, root, MUTATORS) is not None, root, 'mutates MasterSecretKey.secrets.map',
                                   '%s takes `&mut msk.secrets.map` (line %d)' % (body.key, st['ln']),
                                   MUTATORS.get(root, ''), body.where(st['ln']))
     ctx.floor(len(seen), 4, 'mutators of MasterSecretKey.secrets')
@@ -340,7 +340,7 @@ def check_flag_readers(ctx, F):
         if root in seen:
             continue
         seen.add(root)
-        okr = root in FLAG_READERS or any(lib.only_reached_via(F, root, k) for k in ('core::MasterSecretKey::mpk', 'core::primitives::full_decaps'))
+        okr = root in FLAG_READERS or any(lib.only_reached_via(F, root, k) for k in ('core::MasterSecretKey::mpk', 'core::primitives::full_decaps', 'core::primitives::rekey'))
         if root.startswith('<') and ('PartialEq' in root or 'Debug' in root or 'Clone' in root):
             okr = True
         ctx.check(okr, root, 'reads the activation flag',
@@ -349,6 +349,14 @@ def check_flag_readers(ctx, F):
                   'like any other so that they stay decryptable and refreshable' % (body.key, ln), FLAG_READERS.get(root, 'helper of mpk / full_decaps'),
                   body.where(ln))
     ctx.floor(n, 3, 'reads of the activation flag')
+
+
+@rule('C06', 'disable-total')
+def disable_total(ctx):
+    """Disabling takes effect for every attribute of every dimension kind: Dimension::disable_attribute cannot return Ok
+    without having written the status (C03.disable-only-status, path part)."""
+    from . import c03
+    c03.disable_total(ctx)
 
 
 @rule('C06', 'flag-readers', configs=('default', 'p256'))
